@@ -72,6 +72,9 @@ def _dict(I, args, kw):
         if all(isinstance(k, (str, int)) for k, _ in items):
             return dict(items)
         return AssocDict(items)
+    h = I.ext.get("model.dict_of_pairs")
+    if h and isinstance(items, SymList):
+        return h(I, [items], kw)
     raise Unsupported("dict() of symbolic sequence")
 
 
